@@ -164,6 +164,11 @@ pub enum Case {
     Mutated { frame: SFrame, muts: Vec<Mutation>, fix_crc: bool },
     /// a valid frame of at most 1472 bytes with 1..=4 distinct bits flipped
     BitFlip { frame: SFrame, positions: Vec<u16> },
+    /// a valid frame whose body (everything between the 6-byte data-frame header and the checksum) is repeated
+    /// `times` times, with byte 5 (the data frame's nonce / datagram count) set to `count`, re-checksummed: for data
+    /// frames that is a longer-than-any-datagram frame carrying hundreds of well-formed datagrams whose number and
+    /// advertised count agree modulo 128 / 256 or not at all
+    Repeated { frame: SFrame, times: u8, count: u8 },
 }
 
 /// The byte string a case hands to the parser (used by C19's codec cases as well).
@@ -185,6 +190,7 @@ pub fn case_bytes(case: &Case) -> Vec<u8> {
             }
             bytes
         }
+        Case::Repeated { frame, times, count } => repeated_bytes(frame, *times, *count),
         Case::BitFlip { frame, positions } => {
             let mut bytes = frame.build().write().to_vec();
             let nbits = bytes.len() * 8;
@@ -200,6 +206,25 @@ pub fn case_bytes(case: &Case) -> Vec<u8> {
 }
 
 /// Parser inputs biased towards structurally damaged data / ack frames that pass the checksum.
+fn repeated_bytes(frame: &SFrame, times: u8, count: u8) -> Vec<u8> {
+    let bytes = frame.build().write().to_vec();
+    if bytes.len() < 10 {
+        return bytes;
+    }
+    let body = bytes[6..bytes.len() - 4].to_vec();
+    let mut v = bytes[..6].to_vec();
+    v[5] = count;
+    for _ in 0..times.max(1) {
+        if v.len() + body.len() > 70_000 {
+            break;
+        }
+        v.extend_from_slice(&body);
+    }
+    v.extend_from_slice(&[0, 0, 0, 0]);
+    set_crc(&mut v);
+    v
+}
+
 pub fn parser_input_strategy() -> BoxedStrategy<Case> {
     prop_oneof![
         2 => frame_strategy(40).prop_map(Case::RoundTrip),
@@ -342,6 +367,19 @@ impl Check for C16 {
                 }),
             4 => (frame_strategy(40), proptest::collection::vec(mutation_strategy(), 1..4), prop_oneof![3 => Just(true), 1 => Just(false)]).prop_map(|(frame, muts, fix_crc)| Case::Mutated { frame, muts, fix_crc }),
             3 => (frame_strategy(150), proptest::collection::vec(any::<u16>(), 1..=4)).prop_map(|(frame, positions)| Case::BitFlip { frame, positions }),
+            1 => (frame_strategy(40), prop_oneof![2 => 2u8..8, 2 => 8u8..40, 1 => 40u8..=255], any::<u8>(), any::<bool>()).prop_map(|(frame, times, count, exact)| {
+                // (`exact`: the advertised count is the true number of datagrams reduced modulo 128 and 256)
+                let mut case = Case::Repeated { frame, times, count };
+                if exact {
+                    if let Case::Repeated { frame, times, count } = &mut case {
+                        if let Frame::DataFrame(df) = frame.build() {
+                            let n = df.datagrams.len() * (*times).max(1) as usize;
+                            *count = (*count & 0x80) | ((n % 256) as u8 & 0x7F);
+                        }
+                    }
+                }
+                case
+            }),
         ]
         .boxed()
     }
@@ -451,6 +489,20 @@ impl Check for C16 {
                     set_crc(&mut bytes);
                 }
                 classes.push("bytes_mutated");
+                match check_bytes(&bytes, &mut classes) {
+                    Ok(_) => {
+                        let nt = classes.contains(&"bytes_passed_crc_gate");
+                        CaseResult::ok(nt, classes)
+                    }
+                    Err(v) => CaseResult { violation: Some(v), nontrivial: true, classes },
+                }
+            }
+            Case::Repeated { frame, times, count } => {
+                let bytes = repeated_bytes(frame, *times, *count);
+                classes.push("bytes_repeated_body");
+                if bytes.len() > refcodec::MAX_FRAME {
+                    classes.push("bytes_longer_than_any_datagram");
+                }
                 match check_bytes(&bytes, &mut classes) {
                     Ok(_) => {
                         let nt = classes.contains(&"bytes_passed_crc_gate");
